@@ -3,6 +3,7 @@ package server
 import (
 	"sync"
 
+	"github.com/cbeuw/Cloak/internal/common"
 	"github.com/cbeuw/Cloak/internal/server/usermanager"
 
 	mux "github.com/cbeuw/Cloak/internal/multiplex"
@@ -33,6 +34,7 @@ func (u *ActiveUser) CloseSession(sessionID uint32, reason string) {
 	remaining := len(u.sessions)
 	u.sessionsM.Unlock()
 	if remaining == 0 {
+		common.VerifPoint("ActiveUser.CloseSession:beforeTerminate")
 		u.panel.TerminateActiveUser(u, "no session left")
 	}
 }
